@@ -268,6 +268,12 @@ func C04(sp *spec.Spec, ex *rt.Exchange) *Verdict {
 			return v
 		}
 	}
+	// a map outside the body whose key holds a bracket has no name[key]=value spelling (cases.TransportSafe): the
+	// server cannot have read what the design value says
+	if len(viol) == 0 && ex.StubIn == nil && unspellableParamMap(m, c.Sent) {
+		v.Inconclusive = "map key with a bracket outside the body (no name[key]=value spelling)"
+		return v
+	}
 	names, set := ruleNames(viol)
 	// a missing body attribute that IS the body may be reported as a missing payload
 	for _, vi := range viol {
@@ -304,6 +310,24 @@ func C04(sp *spec.Spec, ex *rt.Exchange) *Verdict {
 			"violating request (%s, rules %v) answered with error name %q: %s", site, names, got, trunc(string(ex.WireResp.Body), 200))
 	}
 	return v
+}
+
+// unspellableParamMap reports whether the payload carries, outside the body, a map that the wire cannot spell.
+func unspellableParamMap(m *spec.Method, sent any) bool {
+	o, _ := sent.(map[string]any)
+	if o == nil || m.HTTP == nil {
+		return false
+	}
+	for k, e := range o {
+		loc := cases.LocOf(m.HTTP, k)
+		if loc == valgen.Body {
+			continue
+		}
+		if _, isMap := vtree.IsMap(e); isMap && !cases.TransportSafe(loc, e) {
+			return true
+		}
+	}
+	return false
 }
 
 // emptyOutsideBody reports whether the payload holds an empty string in a non-body location.
